@@ -101,6 +101,14 @@ func parseDocker(raw string, kind Kind, first bool) (*URL, error) {
 		}
 	}
 
+	// Disallow container names and usernames that would be interpreted as
+	// command line options by the docker command.
+	if container[0] == '-' {
+		return nil, errors.New("container name resembles a command line option")
+	} else if username != "" && username[0] == '-' {
+		return nil, errors.New("username resembles a command line option")
+	}
+
 	// Perform path processing based on URL kind.
 	if kind == Kind_Synchronization {
 		// If the path starts with "/~", then we assume that it's supposed to be
